@@ -122,6 +122,10 @@ WITNESSES = [
     ["dict", [[["int", 1], ["property"]], [["str", "b"], ["int", 2]]]],                                  # D26 with misaligned key types: load raises
     ["dict", [[["none"], ["int", 1]]]],                                                                  # None key: load raises (a refusal)
     ["objarray", [], [["int", 3]]],                                                                      # rank-0: load raises
+    # state that is falsy but not None must still go through __setstate__ (faithful on the unchanged tree)
+    ["userobj", "FalsyState", [["flag", ["bool", False]]]], ["userobj", "FalsyState", [["flag", ["int", 0]]]],
+    ["list", [["userobj", "FalsyState", [["flag", ["tuple", []]]]], ["userobj", "FalsyState", [["flag", ["dict", []]]]], ["userobj", "FalsyState", [["flag", ["int", 3]]]]]],
+    ["userobj", "WithState", [["payload", ["none"]]]], ["userobj", "Plain", []], ["userobj", "Slotted", []],
 ]
 
 
